@@ -41,6 +41,27 @@ func buildTagVerif(path string) bool {
 	return false
 }
 
+// exprText renders a (small) expression back to source text
+func exprText(e ast.Expr) string {
+	switch x := e.(type) {
+	case *ast.Ident:
+		return x.Name
+	case *ast.SelectorExpr:
+		return exprText(x.X) + "." + x.Sel.Name
+	case *ast.CallExpr:
+		return exprText(x.Fun) + "(…)"
+	case *ast.IndexExpr:
+		return exprText(x.X) + "[…]"
+	case *ast.ParenExpr:
+		return "(" + exprText(x.X) + ")"
+	case *ast.StarExpr:
+		return "*" + exprText(x.X)
+	case *ast.TypeAssertExpr:
+		return exprText(x.X) + ".(…)"
+	}
+	return "…"
+}
+
 func writeFacts(repo, out string) error {
 	os.Chdir(repo)
 	fset := token.NewFileSet()
@@ -69,7 +90,7 @@ func writeFacts(repo, out string) error {
 		return fmt.Errorf("type check: %v", terr)
 	}
 	type fact struct{ fn, what string }
-	var p1, p2, p3 []fact
+	var p1, p2, p3, p4 []fact
 	for _, af := range afs {
 		for _, d := range af.Decls {
 			fd, ok := d.(*ast.FuncDecl)
@@ -94,6 +115,34 @@ func writeFacts(repo, out string) error {
 				n, ok := tv.Type.(*types.Named)
 				return ok && n.Obj().Name() == "FunctionCall"
 			}
+			// P4: single-value type assertions x.(T) (not `v, ok :=`, not a type switch): each one is a
+			// possible "interface conversion" run-time panic
+			okForm := map[*ast.TypeAssertExpr]bool{}
+			ast.Inspect(fd.Body, func(n ast.Node) bool {
+				switch x := n.(type) {
+				case *ast.AssignStmt:
+					if len(x.Lhs) == 2 && len(x.Rhs) == 1 {
+						if ta, ok := x.Rhs[0].(*ast.TypeAssertExpr); ok {
+							okForm[ta] = true
+						}
+					}
+				case *ast.ValueSpec:
+					if len(x.Names) == 2 && len(x.Values) == 1 {
+						if ta, ok := x.Values[0].(*ast.TypeAssertExpr); ok {
+							okForm[ta] = true
+						}
+					}
+				}
+				return true
+			})
+			ast.Inspect(fd.Body, func(n ast.Node) bool {
+				if ta, ok := n.(*ast.TypeAssertExpr); ok && ta.Type != nil && !okForm[ta] {
+					ts := types.TypeString(info.Types[ta.Type].Type, func(p *types.Package) string { return "" })
+					src := exprText(ta.X)
+					p4 = append(p4, fact{fn, src + ".(" + ts + ")"})
+				}
+				return true
+			})
 			ast.Inspect(fd.Body, func(n ast.Node) bool {
 				switch x := n.(type) {
 				case *ast.CallExpr:
@@ -147,6 +196,7 @@ func writeFacts(repo, out string) error {
 	b.WriteString("/- GENERATED from /repo's current sources by harness/cmd/c02 --facts (go/types).  Do not edit, do not commit. -/\nnamespace OttoVerif.C02.Gen\n\n")
 	emit(&b, "rawReceiverObject", "P1: (function, expression) raw receiver object access on a FunctionCall", p1)
 	emit(&b, "constArgumentIndex", "P2: (function, expression) constant-index reads of the argument list", p2)
+	emit(&b, "uncheckedAssertions", "P4: (function, expression) single-value type assertions (a failed one is a Go run-time panic)", p4)
 	emit(&b, "unconvertedPanics", "P3: (function, static payload type) explicit panics whose payload Run does not convert", p3)
 	b.WriteString("end OttoVerif.C02.Gen\n")
 	return os.WriteFile(out, []byte(b.String()), 0o644)
